@@ -92,7 +92,7 @@ def run(chk: Check) -> None:
     final = [s for s in stores if isinstance(s.ast, ast.Assign) and norm(s.ast.value) == vparam]
     chk.ob('DOM-validate-before-store', out, len(final) == 1 and norm(final[0].ast.targets[0].slice) == 'port_name', 'the value emitted is what is stored, under the port name', kind='stores-the-value')
     # OWN: nobody else mutates _outputs
-    for f, node in attr_writers(prog, '_outputs'):
+    for f, node in __import__('plumpy_sa.rules', fromlist=['effective_writers']).effective_writers(prog, '_outputs'):
         ok = f.qualname in ('processes.Process.__init__', 'processes.Process.load_instance_state')
         chk.ob('OWN-outputs', f, ok, 'the outputs mapping is replaced only at construction / load', node=node, kind='replacer', expr='_outputs store')
     proc = prog.cls('processes.Process')
